@@ -29,7 +29,7 @@
 EXTENDS ZCoord, Json, IOUtils, TLC
 
 VARIABLES l, skip, ctxop
-tvars == <<metas, views, alive, unsynced, mems, used, bad, calls, rf, l, skip, ctxop>>
+tvars == <<metas, views, alive, unsynced, mems, used, bad, calls, rf, rmn, l, skip, ctxop>>
 
 Trace == ndJsonDeserialize(IOEnv.ZR_TRACE)
 E == Trace[l]
@@ -69,8 +69,8 @@ StepBroken(p, nw) ==
      ELSE IF reorder THEN {}
      ELSE IF marks # {} THEN
           UNION {MarkBroken(meta, n, EnvP(p))
-                 \cup (IF ctxop \in {"check", "balance"}
-                       THEN If(n \in alive => Cardinality(ISR(meta)) > rf, "Round:RemovalReducesInSyncBelowFactor")
+                 \cup (IF ctxop \in {"check", "balance", "moveoff"}
+                       THEN If((n \in alive /\ n \notin DOMAIN rmn) => Cardinality(ISR(meta)) > rf, "Round:RemovalReducesInSyncBelowFactor")
                        ELSE {}) : n \in marks}
      ELSE IF fins # {} THEN UNION {FinishBroken(meta, n, EnvP(p)) : n \in fins}
      ELSE IF adds # {} THEN
@@ -94,9 +94,9 @@ PlaceInBroken(old) ==
 TInit == /\ l = 1 /\ skip = FALSE /\ ctxop = ""
          /\ metas = [p \in TraceParts |-> Blank] /\ views = <<>> /\ alive = {} /\ unsynced = {}
          /\ mems = [p \in TraceParts |-> <<>>]
-         /\ used = [p \in TraceParts |-> {}] /\ bad = {} /\ calls = 0 /\ rf = 1
+         /\ used = [p \in TraceParts |-> {}] /\ bad = {} /\ calls = 0 /\ rf = 1 /\ rmn = <<>>
 
-Keep == UNCHANGED <<metas, alive, unsynced, mems, used, rf, ctxop>>
+Keep == UNCHANGED <<metas, alive, unsynced, mems, used, rf, rmn, ctxop>>
 Reject(names) == /\ PrintT(<<"MISMATCH", l, names>>) /\ skip' = TRUE /\ Keep
 
 TNext ==
@@ -106,7 +106,7 @@ TNext ==
   /\ IF E.ev = "reset" THEN
           /\ metas' = [p \in TraceParts |-> Blank] /\ alive' = Range(E.alive) /\ unsynced' = {}
           /\ mems' = [p \in TraceParts |-> <<>>] /\ used' = [p \in TraceParts |-> {}]
-          /\ rf' = E.R /\ ctxop' = "" /\ skip' = FALSE
+          /\ rf' = E.R /\ rmn' = <<>> /\ ctxop' = "" /\ skip' = FALSE
      ELSE IF skip THEN Keep /\ UNCHANGED skip
      ELSE CASE E.ev = "init" ->
                  LET nw == RecOf(E.rec) IN
@@ -114,18 +114,30 @@ TNext ==
                  THEN /\ metas' = [metas EXCEPT ![E.p] = nw]
                       /\ used' = [used EXCEPT ![E.p] = {nw.ids[x] : x \in DOMAIN nw.ids}]
                       /\ mems' = [mems EXCEPT ![E.p] = nw.ids]
-                      /\ UNCHANGED <<alive, unsynced, rf, ctxop, skip>>
+                      /\ UNCHANGED <<alive, unsynced, rf, ctxop, rmn, skip>>
                  ELSE Reject({"InitialRecordInvalid"})
             [] E.ev = "down"    -> alive' = alive \ {E.n} /\ unsynced' = unsynced \ {E.n}
-                                   /\ UNCHANGED <<metas, mems, used, rf, ctxop, skip>>
-            [] E.ev = "up"      -> alive' = alive \cup {E.n} /\ UNCHANGED <<metas, unsynced, mems, used, rf, ctxop, skip>>
-            [] E.ev = "unsync"  -> unsynced' = unsynced \cup {E.n} /\ UNCHANGED <<metas, alive, mems, used, rf, ctxop, skip>>
-            [] E.ev = "sync"    -> unsynced' = unsynced \ {E.n} /\ UNCHANGED <<metas, alive, mems, used, rf, ctxop, skip>>
+                                   /\ UNCHANGED <<metas, mems, used, rf, ctxop, rmn, skip>>
+            [] E.ev = "up"      -> alive' = alive \cup {E.n} /\ UNCHANGED <<metas, unsynced, mems, used, rf, ctxop, rmn, skip>>
+            [] E.ev = "unsync"  -> unsynced' = unsynced \cup {E.n} /\ UNCHANGED <<metas, alive, mems, used, rf, ctxop, rmn, skip>>
+            [] E.ev = "sync"    -> unsynced' = unsynced \ {E.n} /\ UNCHANGED <<metas, alive, mems, used, rf, ctxop, rmn, skip>>
             [] E.ev = "members" -> mems' = [mems EXCEPT ![E.p] = PairFn(E.m)]
-                                   /\ UNCHANGED <<metas, alive, unsynced, used, rf, ctxop, skip>>
-            [] E.ev = "setr"    -> rf' = E.r /\ UNCHANGED <<metas, alive, unsynced, mems, used, ctxop, skip>>
-            [] E.ev = "begin"   -> ctxop' = E.op /\ UNCHANGED <<metas, alive, unsynced, mems, used, rf, skip>>
-            [] E.ev = "end"     -> ctxop' = "" /\ UNCHANGED <<metas, alive, unsynced, mems, used, rf, skip>>
+                                   /\ UNCHANGED <<metas, alive, unsynced, used, rf, ctxop, rmn, skip>>
+            [] E.ev = "setr"    -> rf' = E.r /\ UNCHANGED <<metas, alive, unsynced, mems, used, ctxop, rmn, skip>>
+            [] E.ev = "begin"   -> ctxop' = E.op /\ UNCHANGED <<metas, alive, unsynced, mems, used, rf, rmn, skip>>
+            [] E.ev = "end"     -> ctxop' = "" /\ UNCHANGED <<metas, alive, unsynced, mems, used, rf, rmn, skip>>
+            [] E.ev = "rmmark"  -> /\ rmn' = [x \in DOMAIN rmn \cup {E.n} |-> IF x = E.n /\ x \notin DOMAIN rmn THEN "marked" ELSE rmn[x]]
+                                   /\ UNCHANGED <<metas, alive, unsynced, mems, used, rf, ctxop, skip>>
+            [] E.ev = "rmstates" ->
+                 \* the coordinator's table of nodes being removed after a round: a node newly reported as
+                 \* transferred / done (or dropped from the table) must not be listed by any partition
+                 LET st == [i \in DOMAIN E.ns |-> IF E.sts[i] \in {"data_transferred", "done"} THEN "removable" ELSE "marked"]
+                     now == [n \in Range(E.ns) |-> st[CHOOSE i \in DOMAIN E.ns : E.ns[i] = n]]
+                     freed == {n \in DOMAIN now : now[n] = "removable"} \cup (DOMAIN rmn \ DOMAIN now)
+                     newly == {n \in freed : n \notin DOMAIN rmn \/ rmn[n] = "marked"}
+                 IN IF \E n \in newly, p \in TraceParts : n \in NodeSet(metas[p])
+                    THEN Reject({"NodeRemovable:StillListedByAPartition"})
+                    ELSE rmn' = now /\ UNCHANGED <<metas, alive, unsynced, mems, used, rf, ctxop, skip>>
             [] E.ev = "call"    -> Keep /\ UNCHANGED skip
             [] E.ev = "placein" -> LET b == PlaceInBroken(E.old) IN
                                    IF b = {} THEN Keep /\ UNCHANGED skip ELSE Reject(b)
@@ -134,7 +146,7 @@ TNext ==
                  ELSE LET b == UpdateBroken(E.p, E.rec) IN
                       IF b = {} THEN /\ metas' = [metas EXCEPT ![E.p] = RecOf(E.rec)]
                                      /\ used' = [used EXCEPT ![E.p] = @ \cup {RecOf(E.rec).ids[x] : x \in DOMAIN RecOf(E.rec).ids}]
-                                     /\ UNCHANGED <<alive, unsynced, mems, rf, ctxop, skip>>
+                                     /\ UNCHANGED <<alive, unsynced, mems, rf, ctxop, rmn, skip>>
                       ELSE Reject(b)
             [] OTHER -> Reject({"NoSuchAction:" \o E.ev})
 
